@@ -35,7 +35,57 @@ func genC04(r *Rand, tier string, i int) *h.Scenario {
 		// a tall display: more than 99 rows, cursor-up counts of three digits
 		p.MinBars, p.MaxBars, p.PExt, p.PTightTerm, p.PNarrow, p.MaxOps = 34, 44, 0.9, 0, 0, 4
 	}
+	if r.Bool(0.04) {
+		return genAnonPipeline(r, "C04")
+	}
 	return GenBase(r, &p)
+}
+
+// genAnonPipeline: bars that look exactly alike (no label, same total) finish one per render cycle
+// while a new one joins each cycle - consecutive frames are byte for byte the same although a bar
+// is popped (or removed) by each of them.
+func genAnonPipeline(r *Rand, prop string) *h.Scenario {
+	sc := &h.Scenario{Prop: prop}
+	c := &sc.Cont
+	c.Anon = true
+	c.Pop = r.Bool(0.8)
+	c.Refresh = h.RefManual
+	if r.Bool(0.3) {
+		c.Refresh = h.RefAuto
+		c.RateNS = refreshRates[r.Intn(3)]
+	}
+	c.QueueLen = -1
+	if r.Bool(0.5) {
+		c.Terminal, c.TermW, c.TermH = true, 100, r.Range(12, 30)
+	} else {
+		c.Width = 100
+	}
+	n := r.Range(3, 7)
+	tot := int64(r.Range(1, 5))
+	var ops []h.Op
+	for b := 0; b < n; b++ {
+		sc.Bars = append(sc.Bars, h.BarSpec{Total: tot, QueueAfter: -1, Filler: h.FillProbe, RmOnComp: !c.Pop && r.Bool(0.5)})
+		ops = append(ops, h.Op{K: h.OpAdd, Bar: b}, h.Op{K: h.OpIncr, Bar: b, N: tot})
+		if c.Refresh == h.RefManual {
+			ops = append(ops, h.Op{K: h.OpRefresh})
+		} else {
+			ops = append(ops, h.Op{K: h.OpSleep, D: c.RateNS})
+		}
+		if r.Bool(0.15) {
+			ops = append(ops, h.Op{K: h.OpWrite, S: UserLine(0, b, "between")})
+		}
+	}
+	for k := 0; k < 4; k++ {
+		if c.Refresh == h.RefManual {
+			ops = append(ops, h.Op{K: h.OpRefresh})
+		} else {
+			ops = append(ops, h.Op{K: h.OpSleep, D: c.RateNS})
+		}
+	}
+	sc.Clients = [][]h.Op{ops}
+	p := DefaultProfile(prop)
+	sc.Sched = genSched(r, &p)
+	return sc
 }
 
 // screenCheck runs the emulator over all frames and compares the screen with
@@ -93,12 +143,20 @@ func screenCheck(hi *Hist, frames []*Frame, facts []*BarFacts, prop string) *Vio
 				}
 			}
 		}
-		for _, g := range f.Groups {
-			if popNow[g.Bar] {
-				for _, r := range f.Rows[g.From:g.To] {
-					popped = append(popped, stripSGR(r.Text))
+		if c.Anon {
+			// anonymous bars (one row each): the bars popped by this frame are its topmost rows
+			for n := 0; n < len(popNow) && n < len(f.Rows); n++ {
+				popped = append(popped, stripSGR(f.Rows[n].Text))
+				poppedRows++
+			}
+		} else {
+			for _, g := range f.Groups {
+				if popNow[g.Bar] {
+					for _, r := range f.Rows[g.From:g.To] {
+						popped = append(popped, stripSGR(r.Text))
+					}
+					poppedRows += g.To - g.From
 				}
-				poppedRows += g.To - g.From
 			}
 		}
 		for _, r := range f.Rows {
@@ -201,6 +259,27 @@ func judgeC04(hi *Hist) []*Violation {
 	facts := Facts(hi)
 	if v := screenCheck(hi, frames, facts, "C04"); v != nil {
 		return []*Violation{v}
+	}
+	// "nothing stale remains": the equation above is evaluated after every frame that was written; a
+	// frame that should have been written to erase the rows of removed bars, and was not, leaves
+	// them on the screen for good
+	if AutoMode(hi.Sc) && hi.WaitOut >= 0 && !cancelled(hi) && !c.Delay && !c.Anon && len(frames) > 0 {
+		last := frames[len(frames)-1]
+		if len(last.Spy) <= len(last.Groups) {
+			for _, g := range last.Groups {
+				if g.Bar < 0 || g.Bar >= len(facts) {
+					continue
+				}
+				bf := facts[g.Bar]
+				if !bf.Added || bf.Final == nil || poppable(hi, bf) || !bf.Sequential || len(bf.Succ) > 0 || bf.AddRet > last.W.At {
+					continue
+				}
+				if removable(hi, bf) {
+					note("c04_final_stale_checked")
+					return []*Violation{viol("C04", "stale-rows", "bar %d has been removed from the container but its rows are still on the screen after the last frame (frame %d): nothing erased them: %s", g.Bar, len(frames)-1, last)}
+				}
+			}
+		}
 	}
 	return nil
 }
